@@ -179,6 +179,50 @@ def _corrupt_undrawn_bubble(evs):
     return None
 
 
+def _corrupt_tie_flap(evs):
+    """a frame drawn again from the same layout under a resting pointer recorded as moving the hover from the deepest
+    hovered widget to a childless sibling of the same z-index that contains the point too"""
+    reset = evs[0]
+    lay, ptr, hover = 1, None, set()
+    for e in evs[1:]:
+        if e.get("ev") == "step":
+            if e["in"]["t"] == "mouse":
+                ptr = (e["in"]["x"], e["in"]["y"])
+            elif e["in"]["t"] in ("tfout", "tfin"):
+                ptr = None
+            items = e["offers"]
+        elif e.get("ev") == "frame":
+            items = e["items"]
+        else:
+            continue
+        before = set(hover)
+        for o in items:
+            if o["cls"] == "enter":
+                hover.add(o["w"])
+            elif o["cls"] == "leave":
+                hover.discard(o["w"])
+        if e.get("ev") != "frame":
+            continue
+        prev, lay = lay, e["lay"]
+        if prev != lay or ptr is None or before != hover or len(hover) < 2 or any(o["cls"] != "draw" for o in items):
+            continue
+        par, geo = reset["pars"][lay - 1], reset["lays"][lay - 1]
+        deep = [w for w in hover if not any(par[k - 1] == w for k in hover)]
+        if len(deep) != 1:
+            continue
+        w, x, y = deep[0], ptr[0], ptr[1]
+        a = par[w - 1]
+        while a > 0:
+            x, y, a = x - geo[a - 1]["x"], y - geo[a - 1]["y"], par[a - 1]
+        for v in range(1, reset["n"] + 1):
+            g = geo[v - 1]
+            if v != w and par[v - 1] == par[w - 1] and g["z"] == geo[w - 1]["z"] and not g["hid"] and v not in par \
+                    and g["x"] <= x < g["x"] + g["w"] and g["y"] <= y < g["y"] + g["h"]:
+                e["items"] += [{"w": w, "ph": "tgt", "cls": "leave", "ret": {"c": "nil"}}, {"w": v, "ph": "tgt", "cls": "enter", "ret": {"c": "nil"}}]
+                return evs
+    return None
+
+
 def sig_of(rej, scn):
     why = rej.get("why")
     t = (rej.get("in") or {}).get("t", rej.get("op"))
@@ -190,6 +234,13 @@ def sig_of(rej, scn):
         ctx.append("focus-not-in-frame")
     if t in ("mouse", "frame") and exp.get("overlap"):
         ctx.append("overlapping-siblings")
+    if t in ("mouse", "frame") and exp.get("tie"):
+        # siblings of equal z-index overlap under the pointer: which of them is on top is open, but it is ONE of them for
+        # a frame and a point; "pointer-at-rest": the chain had been established (by the frame or the event before) and
+        # neither the pointer nor the tree and layout changed
+        ctx.append("equal-z-siblings")
+        if exp.get("rest"):
+            ctx.append("pointer-at-rest")
     if t in ("mouse", "tfin", "frame") and exp.get("tfin"):
         ctx.append("after-terminal-focus-in")
     if t in ("mouse", "tfout", "frame") and exp.get("relaid"):
@@ -232,7 +283,11 @@ def main(c):
         "layouts change geometry, z-order, which widgets are drawn at all (a widget that is not drawn is absent from the frame with "
         "its subtree) and which parent draws a widget (the same widget instance may be a child of different parents in different "
         "layouts); the tree that counts for the chain under the pointer, the hover set, the mouse route and the focus path is the tree "
-        "of the last drawn frame; overlapping siblings have distinct z",
+        "of the last drawn frame; overlapping siblings have distinct z, except in the family 'ties'",
+        "among overlapping siblings of EQUAL z-index which one is on top is left open (the property orders by z); demanded is only that the "
+        "chain under the pointer is ONE chain for one drawn frame and one point: the hover set a frame leaves under a resting pointer is "
+        "the chain of every mouse event at that point until the next frame, and a frame drawn again from the same tree and layout under a "
+        "resting pointer enters and leaves nobody",
         "while the widget holding the focus is not part of the last drawn frame only the target-phase offer (to it, to nobody else), the "
         "order of the phases and the stop at a consume are judged: the property does not say who its ancestors are; a frame that does "
         "not contain the focused widget may be followed by one focus change away from it (one focus-out, one focus-in), or by none",
@@ -318,7 +373,8 @@ def main(c):
              ("offer-after-consume", _corrupt_consume), ("target-of-undrawn-focus", _corrupt_undrawn_target),
              ("hover-after-reparenting", _corrupt_reparent_hover), ("focus-out-twice-in-nested-change", _corrupt_nested_focus),
              ("target-after-focus-moved-in-capture", _corrupt_live_target), ("offer-twice", _corrupt_twice),
-             ("event-after-quit-in-frame", _corrupt_quit_in_frame), ("root-bubble-of-undrawn-focus", _corrupt_undrawn_bubble)])
+             ("event-after-quit-in-frame", _corrupt_quit_in_frame), ("root-bubble-of-undrawn-focus", _corrupt_undrawn_bubble),
+             ("hover-flap-between-equal-z-siblings", _corrupt_tie_flap)])
     lap("binding_selftest")
     c.confirm(drv, "c15", specs, "Routing_Trace.tla", "Routing_Trace.cfg", cands, sig_of)
     lap("confirm")
@@ -347,6 +403,11 @@ def main(c):
              "focus position x capturing ancestor a x widget b: a's CaptureEvent (the target; the root bubbling) returns focus(b) without "
              "consume, plain or with every focus-in (focus-out) handler returning consume; tick-*: a widget appearing / vanishing under a "
              "resting pointer or vanishing while focused answers the notification the frame sends with quit, focus or consume; "
+             "ties: one surface with 13-18 children (more than a dozen: sorting them by "
+             "z-index is then no longer a trivially stable insertion sort), one row each at z-index 0, 2-4 of them rectangles overlapping their "
+             "siblings, 1-3 raised or lowered, children below some, one or two layouts (different widgets raised): the pointer resting on a cell "
+             "shared by siblings of equal z-index while frames are drawn from the unchanged tree and presses, releases, motions and wheel "
+             "events arrive at that cell (with single consumers), then moving, layout switches, terminal focus out/in; "
              "route-selfnest: the route family on trees in which a set of widgets draws a surface of its own inside its surface; the random "
              "families also return focus (one-shot), consume and quit from notification handlers and focus without consume from capture / "
              "target handlers, a third of them with self-nested widgets; fixed corner cases; every sentinel key is itself a checked key dispatch; distinct = distinct descriptor")
